@@ -12,6 +12,17 @@ BOUNDS = dict(family='F (vf/family.py)', array_lengths='{0,1,2} per array (limit
 def run(tier):
     t0 = time.time()
     obs, conds, fam, _ = X.run_value_checks('C02', tier, ['rt'])
+    # shifted counters (Python API only: prophy.array(..., shift=k)); classes and conditions in vf/cntshift.py
+    import os
+    from . import cntshift, chrun
+    path = os.path.join(os.path.dirname(os.path.abspath(__file__)), 'cntshift.py')
+    sconds = C.only([chrun.Cond(path, fn, 'api-shift/count-roundtrip/' + fn, dict(shape='api-shift', check='shifted array counter round trip', symbolic='count n + byte order'),
+                                sample_args=sample) for fn, sample in cntshift.CONDS])
+    if sconds:
+        raw = chrun.run_conditions(sconds, 60 if tier == 'quick' else 300)
+        sobs, _ = chrun.to_obligations('C02', sconds, raw, replays_start=900)
+        chrun.concrete_reach(sconds, sobs)
+        obs += sobs
     return C.finish('C02', tier, obs, t0, functions=X.FUNCS_ENC + X.FUNCS_DEC, bounds=BOUNDS,
                     assumptions=['no reference to wirespec except to decide which greedy length combinations end aligned',
                                  'engine patches 1-6 (vf/chpatches.py)', 'float fields carry concrete sample values'],
